@@ -46,9 +46,9 @@ def run_exact(ctx, states):
         try:
             bl, bu = E.get_density_matrix_boundary(rho)
             ctx.evaluations += 1
-            if core.gt(abs(bu - bdm), 1e-9) * max(1, bdm): bad('get_density_matrix_boundary', 'upper boundary differs from the exact threshold', dict(got=float(bu)))
+            if core.gt(abs(bu - bdm), 1e-9 * max(1, bdm)): bad('get_density_matrix_boundary', 'upper boundary differs from the exact threshold', dict(got=float(bu)))
             pl, pu = E.get_ppt_boundary(rho, dims)
-            if core.gt(abs(pu - bppt), 1e-9) * max(1, bppt): bad('get_ppt_boundary', 'upper boundary differs from the exact threshold', dict(got=float(pu)))
+            if core.gt(abs(pu - bppt), 1e-9 * max(1, bppt)): bad('get_ppt_boundary', 'upper boundary differs from the exact threshold', dict(got=float(pu)))
             # threshold semantics with the library's own tests: just inside passes, just outside fails
             rin, rout = E.hf_interpolate_dm(rho, beta=bu * (1 - DELTA)), E.hf_interpolate_dm(rho, beta=bu * (1 + DELTA))
             if not psd(rin): bad('get_density_matrix_boundary', 'state just inside the reported boundary is not positive')
@@ -59,6 +59,12 @@ def run_exact(ctx, states):
             # interpolation places the state at the requested Gell-Mann distance
             for b in (0.05, bu / 2, bu):
                 if core.gt(abs(numqi.gellmann.dm_to_gellmann_norm(E.hf_interpolate_dm(rho, beta=b)) - b), 1e-9): bad('hf_interpolate_dm', 'state is not at the requested Gell-Mann distance', dict(beta=b))
+            # the boundary of the generalized (realignment-type) PPT criterion is the threshold of is_generalized_ppt along the ray
+            # (root finding with xtol = 1e-5: probes at a relative distance 1e-3)
+            gu = float(E.get_generalized_ppt_boundary(rho, dims))
+            if not (0 < gu <= bu + 1e-9): bad('get_generalized_ppt_boundary', 'boundary outside (0, beta_DM]', dict(got=gu))
+            elif not E.is_generalized_ppt(E.hf_interpolate_dm(rho, beta=gu * (1 - 1e-3)), dims): bad('get_generalized_ppt_boundary', 'state just inside the reported boundary fails is_generalized_ppt', dict(got=gu))
+            elif gu < bu * (1 - 2e-3) and E.is_generalized_ppt(E.hf_interpolate_dm(rho, beta=gu * (1 + 1e-3)), dims): bad('get_generalized_ppt_boundary', 'state just outside the reported boundary still passes is_generalized_ppt', dict(got=gu))
             # without the within_dm clamp the PPT boundary is the threshold of the partial transpose alone
             if pu > bu + 1e-12: bad('get_ppt_boundary', 'PPT boundary exceeds the state-space boundary (within_dm=True)')
         except Exception as ex:
